@@ -12,11 +12,19 @@ Operations of an enum script (one token each; the Lean driver command `dynenum <
   G<int>  E[<int>]                                   q<b>:<int>  E(numpy.uint<b>(<int>), raise_on_unrecognized=False)
   a<b>:<int> / A<b>:<int>  AutoEnum(Int<b>ul, E).parse(bytes) lenient / EnumAdapter(..., raise_on_unrecognized=True).parse(bytes)
   g<name> E[<name>]        n<name> / N<name>  E(<name>, raise_on_unrecognized=True / False)        i  list(E)     l  len(E)
+  r  list(reversed(E))     j  len(E) and len(list(E)) taken in the same state, as <len>/<count>
+  w<int>  <int> in E       W<name>  E[<name>] in E       H<int>  E(<int>, raise_on_unrecognized=False) in E       (answers T / F)
   K<id>.<form>.<wire>       a NEW adapter object number <id> for (construct.<wire>, E) is created in the way <form> names
                             (ADAPTER_FORMS: AutoEnum / EnumAdapter, flag omitted / by keyword / positional); answers len(E)
   Y<wire>.<form>.<other enum>  an adapter for ANOTHER enumeration on the same wire type is made; answers len(E)
   P<id>.<form>.<wire>:<int> / F...  adapter <id>.parse(bytes of <int>) directly / as a field of a construct.Struct
 Answers: a member is NAME=value:U|R (U = is_unrecognized()), a list is comma separated, an exception is !<Type>.
+The "defined members / iteration / length" clause is judged on these answers directly, against the definition (the
+translator's table: names in declaration order with their values; the FIRST name of a value is the member, later names of
+the same value are aliases of it): in every state list(E) is the members in declaration order, each once, no hidden one;
+len(E) == len(list(E)) == the number of distinct defined values (not of names); reversed(E) is that list reversed; E[name]
+for every name, alias names included, is the member with that value; `v in E` holds exactly for the defined values, `m in E`
+for every defined member and not for the hidden member of an unknown value.
 (d, G, A are the model's `s`; a, q are the model's `c`; P and F are `s` or `c` according to the flag THAT adapter was
 created with, whatever other adapters exist for the same pair and whatever was converted through them.)
 
@@ -106,7 +114,15 @@ def resolve_enum(q):
 SYNTHETIC = ['synthetic:SentinelFirst|INVALID=15,A=0,B=3,C=1',
              'synthetic:Descending|Z=9,Y=5,X=2',
              'synthetic:Gappy|LOW=1,HIGH=40,MID=7,ZERO=0',
-             'synthetic:NegFirst|LAST=6,NEG=-2,FIRST=-5,ONE=1']
+             'synthetic:NegFirst|LAST=6,NEG=-2,FIRST=-5,ONE=1',
+             # several NAMES for one value (the package has a single such class, MessageRate): two and three names, the
+             # alias right after its member / after other members / before other members, aliases of the zero value, of a
+             # negative value, of the first and of the last member, more alias names than members
+             'synthetic:AliasPair|A=1,B=2,B2=2,C=3',
+             'synthetic:AliasTriple|X=5,Y=5,Z=5,W=1,V=9',
+             'synthetic:AliasZero|NONE=0,OFF=0,ON=1,HIGH=2,MAX=2,DISABLED=0',
+             'synthetic:AliasLate|FIRST=3,SECOND=1,THIRD=7,AGAIN=3,LAST=0,ZERO=0,SEVEN=7',
+             'synthetic:AliasNeg|M=-1,N=-1,P=4,Q=-3,R=4,S=-3,T=-1,U=4']
 
 
 def synthetic_infos():
@@ -185,6 +201,15 @@ class _Exec:
                 return ','.join(self.tok(m) for m in list(E)) or '-'
             if k == 'l':
                 return str(len(E))
+            if k == 'r':
+                return ','.join(self.tok(m) for m in reversed(E)) or '-'
+            if k == 'j':                                   # both in the same state: nothing happens in between
+                n, members = len(E), list(E)
+                return '%s/%d' % (n if type(n) is int else '?type:' + type(n).__name__, len(members))
+            if k in 'wWH':
+                x = int(arg) if k == 'w' else E[arg] if k == 'W' else E(int(arg), raise_on_unrecognized=False)
+                b = x in E
+                return ('T' if b else 'F') if type(b) is bool else '?type:%s' % type(b).__name__
             if k == 'q':                                   # a numpy integer, as the file index hands them over
                 import numpy as np
                 bits, v = arg.split(':')
@@ -512,8 +537,15 @@ class Info:
         for n, v in self.defn:
             self.canon.setdefault(v, n)
         self.byname = dict(self.defn)
-        self.iter = ','.join('%s=%d:R' % (n, v) for n, v in self.defn if self.canon[v] == n) or '-'
-        self.len = len(set(self.values))
+        # names vs members (c17_extract.split_aliases; the generated Lean table states per class that `members` is the
+        # model's canonicalMembers of the body)
+        members, aliases = c17_extract.split_aliases(self.defn)
+        self.members = members
+        self.aliases = aliases
+        self.member_toks = ['%s=%d:R' % (n, v) for n, v in members]
+        self.iter = ','.join(self.member_toks) or '-'
+        self.reversed = ','.join(reversed(self.member_toks)) or '-'
+        self.len = len(members)
 
     def member(self, v):
         return '%s=%d:R' % (self.canon[v], v)
@@ -523,7 +555,12 @@ class Info:
 
 
 def checkpoint(info, seen, rng, full):
-    ops = ['i', 'l']
+    ops = ['i', 'l', 'j', 'r']
+    vs = sorted(info.values)
+    ops += ['w%d' % v for v in (vs if full or len(vs) <= 6 else rng.sample(vs, 6))]
+    ops += ['w%d' % v for v in (vs[0] - 1, vs[-1] + 1, vs[-1] + 2, 77) if v not in info.values]
+    names = [n for n, _ in info.defn]
+    ops += ['W' + n for n in (names if full or len(names) <= 6 else [a for a, _ in info.aliases][:4] + rng.sample(names, 4))]
     ops += ['g' + n for n, _ in info.defn]
     ops += ['g' + n for n in ABSENT if n]
     if full:
@@ -533,6 +570,7 @@ def checkpoint(info, seen, rng, full):
         sv = rng.sample(sv, 300)
     ops += ['s%d' % v for v in sv]
     ops += ['g%s_%d' % (PREFIX, v) for v in sv[:8]] + ['n%s_%d' % (PREFIX, v) for v in sv[:3]]
+    ops += ['w%d' % v for v in sv[:6]] + ['H%d' % v for v in sv[-3:]]     # an unknown value seen before, and its hidden member
     return ops
 
 
@@ -955,27 +993,86 @@ def judge_enum(ctx, info, script, toks):
             conversions += 1         # another enumeration saw an unknown value; len(E) is reported
             if 'l' in baseline and t != baseline['l']:
                 add('len/changed-after-foreign-conversions', 'len(E) was %s on the fresh class and is %s' % (baseline['l'], t), i)
-        elif k in 'il' or (k in 'gn' and not hidden(op[1:])):
-            # history independence: the answer must be the one the fresh class gave to the same question in this script
-            # (before any conversion).  Whether the fresh answers follow the definition is the model's business.
+        elif k in 'iljrwWH' or (k in 'gn' and not hidden(op[1:])):
+            # (1) the clause stated outright: the answer must be what the DEFINITION says (info = the translator's table),
+            #     in every state;  (2) history independence: the answer must be the one the fresh class gave to the same
+            #     question in this script (before any conversion).  An answer that moved is reported as (2) - the
+            #     signatures older replays carry -, an answer that is wrong from the start (or wrong and never asked on the
+            #     fresh class) as (1).
             name = op[1:]
-            site = {'i': 'iter', 'l': 'len', 'g': 'getitem', 'n': 'call-by-name'}[k]
+            site = {'i': 'iter', 'l': 'len', 'g': 'getitem', 'n': 'call-by-name', 'j': 'len', 'r': 'reversed', 'w': 'contains',
+                    'W': 'contains', 'H': 'contains'}[k]
+            direct = None
+            if k == 'H':
+                conversions += 1
+                lenient_seen.add(int(name))
+            if k in 'ir':
+                want = info.iter if k == 'i' else info.reversed
+                what = 'list(E)' if k == 'i' else 'list(reversed(E))'
+                got = [] if t == '-' else t.split(',')
+                if t.startswith('!'):
+                    direct = ('raises', '%s raised' % what)
+                elif any(x.endswith(':U') for x in got):
+                    direct = ('yields-hidden-member', '%s yields the hidden member %s' % (what, [x for x in got if x.endswith(':U')][0]))
+                elif len(set(got)) != len(got):
+                    direct = ('member-repeated', '%s yields %s more than once' % (what, [x for x in got if got.count(x) > 1][0]))
+                elif t != want:
+                    direct = ('not-the-defined-members-in-%s-order' % ('declaration' if k == 'i' else 'reverse-declaration'),
+                              '%s is not the %d defined members (first name of every distinct value) in %s order: want %s'
+                              % (what, info.len, 'declaration' if k == 'i' else 'reverse declaration', want[:200]))
+            elif k == 'l':
+                if t != str(info.len):
+                    direct = ('not-the-number-of-defined-members', 'len(E) is not %d, the number of distinct defined values (%d names%s)'
+                              % (info.len, len(info.defn), ''.join('; %s is an alias of %s' % a for a in info.aliases[:4])))
+            elif k == 'j':
+                a, _, b = t.partition('/')
+                if t.startswith('!'):
+                    direct = ('raises', 'len(E) / list(E) raised')
+                elif a != b:
+                    direct = ('differs-from-iteration', 'len(E) is %s while list(E), taken in the same state, has %s members '
+                              '(the definition has %d distinct values under %d names%s)'
+                              % (a, b, info.len, len(info.defn), ''.join('; %s is an alias of %s' % x for x in info.aliases[:4])))
+                elif a != str(info.len):
+                    direct = ('not-the-number-of-defined-members', 'len(E) and len(list(E)) are %s, the definition has %d distinct values'
+                              % (a, info.len))
+            elif k in 'wH':
+                v = int(name)
+                subject = '%d in E' % v if k == 'w' else 'E(%d, raise_on_unrecognized=False) in E' % v
+                if t.startswith('!'):
+                    if k == 'H':
+                        direct = ('raises', '`%s` raised' % subject)
+                    else:
+                        ctx.count('contains_int_not_supported')      # judged by history independence only
+                elif v in info.values and t != 'T':
+                    direct = ('defined-%s-reported-absent' % ('value' if k == 'w' else 'member'), '`%s` is false for a defined value' % subject)
+                elif v not in info.values and t != 'F':
+                    direct = (('undefined-value-reported-present' if k == 'w' else 'hidden-member-reported-present') +
+                              ('-after-conversion' if v in lenient_seen else ''),
+                              '`%s` is true for the undefined value %d%s' % (subject, v, ' (converted leniently before)' if v in lenient_seen else ''))
+            elif k == 'W':
+                if (name in info.byname or name.upper() in info.byname) and t != 'T':
+                    direct = ('defined-member-reported-absent', '`E[%r] in E` is not true for a defined name' % name)
+            elif name in info.byname or name.upper() in info.byname:
+                want = info.member(info.byname[name] if name in info.byname else info.byname[name.upper()])
+                # (on the fresh class only names spelled as in the definition are judged: the upper-case fallback of
+                #  `E['name']` is a convenience of the implementation, not part of the definition)
+                if t != want and (conversions or name in info.byname):
+                    alias = dict(info.aliases).get(name if name in info.byname else name.upper())
+                    direct = ('defined-name-changed' if conversions else 'defined-name-not-its-member',
+                              'lookup of the defined name %r%s is not %s' % (name, ' (an alias of %s)' % alias if alias else '', want))
+            elif not t.startswith('!') and conversions:
+                direct = ('absent-name-resolves-after-conversions', 'lookup of the absent name %r succeeds' % name)
             if conversions == 0:
                 baseline.setdefault(op, t)
-            elif op in baseline:
-                if t != baseline[op]:
-                    what = {'i': 'list(E)', 'l': 'len(E)'}.get(k, 'lookup of %s name %r' %
-                                                             ('the defined' if name in info.byname else 'the', name))
-                    feature = {'i': 'changed-after-conversions', 'l': 'changed-after-conversions'}.get(
-                        k, 'defined-name-changed' if name in info.byname or name.upper() in info.byname else
-                        ('absent-name-resolves-after-conversions' if baseline[op].startswith('!') else 'name-lookup-changed'))
-                    add(site + '/' + feature, '%s was %s on the fresh class and is %s' % (what, baseline[op][:200], t[:200]), i)
-            elif k in 'gn' and (name in info.byname or name.upper() in info.byname):
-                want = info.member(info.byname[name] if name in info.byname else info.byname[name.upper()])
-                if t != want:
-                    add(site + '/defined-name-changed', 'lookup of the defined name %r is not %s' % (name, want), i)
-            elif k in 'gn' and not t.startswith('!'):
-                add(site + '/absent-name-resolves-after-conversions', 'lookup of the absent name %r succeeds' % name, i)
+            if op in baseline and t != baseline[op] and k != 'H':
+                what = {'i': 'list(E)', 'l': 'len(E)', 'j': 'len(E)/len(list(E))', 'r': 'list(reversed(E))', 'w': '`%s in E`' % name,
+                        'W': '`E[%r] in E`' % name}.get(k, 'lookup of %s name %r' % ('the defined' if name in info.byname else 'the', name))
+                feature = 'changed-after-conversions' if k in 'iljrwW' else (
+                    'defined-name-changed' if name in info.byname or name.upper() in info.byname else
+                    ('absent-name-resolves-after-conversions' if baseline[op].startswith('!') else 'name-lookup-changed'))
+                add(site + '/' + feature, '%s was %s on the fresh class and is %s' % (what, baseline[op][:200], t[:200]), i)
+            elif direct:
+                add(site + '/' + direct[0], direct[1], i)
         elif k in 'gn':
             # a hidden name: `E['_U_3']` resolves once 3 has been converted leniently.  Not a defined name and not an
             # ordinary absent one: recorded, and judged by the correspondence with the model only (theorem
@@ -1186,7 +1283,7 @@ def translate(ctx):
 def run_scripts(ctx, infos, scripts):
     by = {i.q: i for i in infos}
     # the expensive scripts first (a lenient conversion costs O(members)): the workers finish together
-    scripts = sorted(scripts, key=lambda sc: -(sum(1 for o in sc['ops'] if o[0] in 'caq') if sc['kind'] == 'enum' else
+    scripts = sorted(scripts, key=lambda sc: -(sum(1 for o in sc['ops'] if o[0] in 'caqH') if sc['kind'] == 'enum' else
                                                (len(sc.get('subsets', [])) + len(sc.get('steps', []))) // 8))
     t0 = time.time()
     results = run_forked(scripts, nproc=min(12, os.cpu_count() or 6) if ctx.thorough else 4, timeout=5400 if ctx.thorough else 600)
@@ -1204,6 +1301,12 @@ def run_scripts(ctx, infos, scripts):
             pend.append(('enum', r, sc, info))
             ctx.count('enum_scripts_' + sc['label'])
             ctx.count('enum_operations', len(sc['ops']))
+            for o in sc['ops']:
+                if o[0] in 'jrwWH':
+                    ctx.count({'j': 'ops_len_vs_iteration', 'r': 'ops_reversed', 'w': 'ops_value_in_enum', 'W': 'ops_member_in_enum',
+                               'H': 'ops_hidden_member_in_enum'}[o[0]])
+            if info.aliases:
+                ctx.count('enum_scripts_on_classes_with_alias_names')
             if sc['oracle']:
                 for sig, desc, i in judge_enum(ctx, info, sc, r):
                     ctx.count('violations_seen')
@@ -1228,7 +1331,7 @@ def run_scripts(ctx, infos, scripts):
             impl = ';'.join(got[:model_ops(sc)])
             if len(got) > model_ops(sc):
                 ctx.count('operations_beyond_model_prefix_oracle_only', len(got) - model_ops(sc))
-            ctx.case('%s|%s' % (info.q, ';'.join(sc['ops'])), nontrivial=any(o[0] in 'caqNPF' for o in sc['ops']))
+            ctx.case('%s|%s' % (info.q, ';'.join(sc['ops'])), nontrivial=any(o[0] in 'caqNPFH' for o in sc['ops']))
             if impl != mo:
                 it, mt = impl.split(';'), mo.split(';')
                 j = next((x for x in range(min(len(it), len(mt))) if it[x] != mt[x]), min(len(it), len(mt)))
@@ -1256,8 +1359,9 @@ def shrink_enum(ctx, info, sc, i, sig=None):
     preserve a disagreement with the model."""
     ops = sc['ops'][:i + 1]
     last = ops[-1]
-    head = [last] if last[0] in 'ilgn' else []
-    keep = [(j, o) for j, o in enumerate(ops[:-1]) if o[0] in 'caqNPF']
+    head = [last] if last[0] in 'ilgnjrwW' else []      # the same question on the fresh class (dropped if the signature is
+                                                         # that of an answer wrong in itself, not of one that moved)
+    keep = [(j, o) for j, o in enumerate(ops[:-1]) if o[0] in 'caqNPFH']
     made = [(j, o) for j, o in enumerate(ops[:-1]) if o[0] in 'KY']
 
     def build(made, body):
@@ -1272,6 +1376,8 @@ def shrink_enum(ctx, info, sc, i, sig=None):
             return any(s == sig and j == len(cand['ops']) - 1 for s, _, j in judge_enum(_NoCount(), info, cand, r))
         return ctx.driver([model_line(info, cand)])[0].split(';')[-1] != r[-1]
     try:
+        if head and not fails(made, keep):
+            head = []
         if fails(made, keep):
             cur = keep
             for _ in range(20):
@@ -1317,6 +1423,7 @@ def run(ctx, data):
             scripts.append(adapter_script(ctx, si, ctx.rng, variant, uncovered, infos))
     infos = infos + syn
     ctx.count('enum_classes', len(infos))
+    ctx.count('enum_classes_with_alias_names', sum(1 for x in infos if x.aliases))
     run_scripts(ctx, infos, scripts)
 
 
@@ -1335,7 +1442,13 @@ def check(ctx):
         'a sample of the 16-bit range (with its ends and the neighbours of defined values) in three orders (thorough: all 65536 '
         'values for the 16-bit classes, in 16 histories of 4096 values each, each value converted leniently and strictly); per value: lenient conversion (directly or through EnumAdapter/AutoEnum.parse) and strict '
         'conversion before and after; at checkpoints list(E), len(E), E[name] for every defined name, absent names, strict conversion '
-        'of the values seen so far, hidden-name lookups; mask helpers: all subsets of the captured members (up to 2^12, sampled '
+        'of the values seen so far, hidden-name lookups; the members / iteration / length clause judged outright against the '
+        'definition table at every checkpoint (list(E) = first name of every distinct value in declaration order, each once, no '
+        'hidden member; len(E) == len(list(E)) taken in the same state == number of distinct values, not of names; '
+        'list(reversed(E)); E[name] for every name, alias names included; `v in E` for defined, undefined-unseen and '
+        'undefined-seen values, `E[name] in E`, the hidden member `in E`) on the fresh class and after every history, for the '
+        'package classes (one of which has an alias name) and for synthetic classes with two and three names for one value, '
+        'aliases before / after other members, of the zero value, of negative values; mask helpers: all subsets of the captured members (up to 2^12, sampled '
         'beyond) for several offsets, by member and by name, plus random masks for to_values.  Adapters: per class two scripts '
         'that make several adapter objects for the same (wire type, enumeration) pair - 8 ways of making one (AutoEnum / '
         'EnumAdapter, flag omitted / keyword / positional, strict / permissive), 16 wire types (quick: Int8ul/16ul/32ul + 5 others), '
@@ -1353,7 +1466,12 @@ def check(ctx):
     ctx.assumptions += [
         'Model/DynEnum.lean models DynamicEnumMeta together with aenum.extend_enum (stdlib-Enum, non-Flag path) and CPython 3.12 '
         'Enum.__new__/_proto_member.__set_name__ as three tables (_member_names_, _member_map_, _value2member_map_); it is tied to the '
-        'real classes by comparing every answer of every script',
+        'real classes by comparing every answer of every script; reversed(E) and `x in E` are modelled for CPython 3.12 '
+        '(EnumType.__reversed__ / __contains__ under DynamicEnumMeta\'s filters); where an interpreter refuses `int in E` '
+        '(TypeError before 3.12) that answer is only required to be the same before and after conversions',
+        'names vs members: the first NAME = value line of a value is the member, later lines with the same value are alias names '
+        '(c17_extract.split_aliases, cross-checked against the interpreter\'s __members__ objects; the generated table states per '
+        'class, kernel-decided, that this member list is the model\'s canonicalMembers)',
         'a Python str is modelled as its list of code points; str.upper() is modelled for ASCII letters only (the translator rejects '
         'non-ASCII member names)',
         'extend_enum also refuses a name present in the class __dict__ or a superclass; the translator checks that no non-member '
